@@ -13,7 +13,11 @@ type ReturnStatement struct {
 func (rs *ReturnStatement) Evaluate(dc *context.DataContext, Vars map[string]reflect.Value) (reflect.Value, error, bool) {
 	if rs.Expression != nil {
 		value, e := rs.Expression.Evaluate(dc, Vars)
-		return value, e, true
+		if e != nil {
+			//a failed return expression is a failed rule, not a returned one
+			return reflect.ValueOf(nil), e, false
+		}
+		return value, nil, true
 	}
 	return reflect.ValueOf(nil), nil, true
 }
